@@ -749,7 +749,13 @@ class DstEntity(Entity):
         t = tid_of(pdu)
         if t in self.closed and (self.idle() or tid_plain(self.h.transaction_id) != t):
             if pdu_kind(pdu) == "EOF" and pdu.transmission_mode == TransmissionMode.ACKNOWLEDGED:
-                ack = acknowledge_inactive_eof_pdu(copy.deepcopy(pdu), TransactionStatus.TERMINATED)
+                try:
+                    ack = acknowledge_inactive_eof_pdu(copy.deepcopy(pdu), TransactionStatus.TERMINATED)
+                except Exception as e:  # noqa: BLE001
+                    # the documented helper refused a status it documents: recorded like any exception of a library call
+                    self.internal_error = e
+                    self.log.append(("exc", self.side, self.ncalls, type(e).__name__, False, "acknowledge_inactive_eof_pdu: " + str(e)[:160]))
+                    return []
                 raw = bytes(ack.pack())
                 cp = transport(ack, self.tmode)
                 self.log.append(("entity_emit", self.side, self.ncalls, cp, raw))
